@@ -59,11 +59,11 @@ func (t *Throw) Error() string { return t.Class }
 
 func throw(class string) { panic(&Throw{class}) }
 
-func U() V             { return V{T: Undef} }
-func N(f float64) V    { return V{T: Num, N: f} }
-func S(s string) V     { return V{T: Str, S: s} }
-func Bv(b bool) V      { return V{T: Bool, Bo: b} }
-func Bg(b *big.Int) V  { return V{T: Big, B: b} }
+func U() V            { return V{T: Undef} }
+func N(f float64) V   { return V{T: Num, N: f} }
+func S(s string) V    { return V{T: Str, S: s} }
+func Bv(b bool) V     { return V{T: Bool, Bo: b} }
+func Bg(b *big.Int) V { return V{T: Big, B: b} }
 func Eff(fx string, prim V) V {
 	return V{T: EffObj, O: &EObj{Fx: fx, Prim: prim}}
 }
